@@ -1778,6 +1778,7 @@ func RunFrame(frame *py.Frame) (res py.Object, err error) {
 	var arg int32
 	opcodes := frame.Code.Code
 	for vm.why == whyNot {
+		vm.verifPre()
 		if debugging {
 			debugf("* %4d:", frame.Lasti)
 		}
@@ -1924,6 +1925,7 @@ func RunFrame(frame *py.Frame) (res py.Object, err error) {
 	}
 
 fast_yield:
+	vm.verifExit()
 	// FIXME
 	// if (co->co_flags & CO_GENERATOR) {
 	//     /* The purpose of this block is to put aside the generator's exception
